@@ -21,3 +21,7 @@ def kn(n, x):
 
 
 defvjp(kn, None, lambda ans, n, x: lambda g: - g * 0.5 * (kn(np.abs(n - 1), x) + kn(n + 1, x)))
+
+
+# autograd's rule for ive divides by x and is not finite at x = 0, where ive is smooth.
+defvjp(ive, None, lambda ans, n, x: lambda g: g * (0.5 * (ive(n - 1, x) + ive(n + 1, x)) - np.sign(x) * ans))
